@@ -293,7 +293,7 @@ theorem decShelleyMa_item_some (L : Leaf N) (hL : L.Lawful) (m : Metadata) (ns :
     decShelleyMa L (itemShelleyMa L ⟨m, some ns⟩) = .ok ⟨canonSortInt m, some ns⟩ := by
   simp [itemShelleyMa, decShelleyMa, listElems?, decMetadata_itemMetadata m h.1 h.2, decScripts_itemScripts L hL, Res.bind]
 
-/-- the default `native_scripts=None` is written as `null`, which the hook cannot iterate -/
+/-- a `None` script list is written as `null`, which the hook cannot iterate -/
 theorem decShelleyMa_item_none (L : Leaf N) (m : Metadata) (h : MetaOk m) :
     decShelleyMa L (itemShelleyMa L ⟨m, Option.none⟩) = .crash := by
   simp [itemShelleyMa, decShelleyMa, listElems?, decMetadata_itemMetadata m h.1 h.2, decScripts, Res.bind]
@@ -355,24 +355,45 @@ def AuxOk : Aux N → Prop
   | .shelleyMa s => MetaOk s.metadata
   | .alonzo a => AlonzoOk a
 
-/-- the Shelley-MA form holds a script list (not the default `None`) -/
-def ScriptsPresent : Aux N → Prop
-  | .shelleyMa s => s.native.isSome = true
-  | _ => True
+/-- the object is one a constructor or the decoder can have produced: the Shelley-MA form holds a script list
+(`__post_init__` replaces `None`) -/
+def Constructed (a : Aux N) : Prop := constructedB a = true
 
-theorem auxOkB_sound (a : Aux N) (h : auxOkB a = true) : AuxOk a ∧ ScriptsPresent a := by
+theorem constructed_normAux (a : Aux N) : Constructed (normAux a) := by
+  cases a <;> rfl
+
+theorem normAux_idem (a : Aux N) : normAux (normAux a) = normAux a := by
+  cases a <;> rfl
+
+theorem normAux_of_constructed (a : Aux N) (h : Constructed a) : normAux a = a := by
   cases a with
-  | shelley m => exact ⟨okM_sound m h, trivial⟩
+  | shelley m => rfl
+  | alonzo b => rfl
   | shelleyMa s =>
-    simp only [auxOkB, Bool.and_eq_true] at h
-    exact ⟨okM_sound _ h.1, h.2⟩
+    obtain ⟨m, ns⟩ := s
+    cases ns with
+    | none => simp [Constructed, constructedB] at h
+    | some ns => rfl
+
+theorem constructed_canonAux (a : Aux N) (h : Constructed a) : Constructed (canonAux a) := by
+  cases a with
+  | shelley m => rfl
+  | alonzo b => rfl
+  | shelleyMa s => exact h
+
+theorem auxOkB_sound (a : Aux N) (h : auxOkB a = true) : AuxOk a := by
+  cases a with
+  | shelley m => exact okM_sound m h
+  | shelleyMa s => exact okM_sound _ h
   | alonzo a =>
-    refine ⟨?_, trivial⟩
     intro m hm
     simp only [auxOkB, hm] at h
     exact okM_sound m h
 
-theorem decAux_itemAux (L : Leaf N) (hL : L.Lawful) (a : Aux N) (h : AuxOk a) (hs : ScriptsPresent a) :
+theorem auxOk_normAux (a : Aux N) (h : AuxOk a) : AuxOk (normAux a) := by
+  cases a <;> exact h
+
+theorem decAux_itemAux (L : Leaf N) (hL : L.Lawful) (a : Aux N) (h : AuxOk a) (hs : Constructed a) :
     decAux L (itemAux L a) = .ok (canonAux a) := by
   cases a with
   | shelley m =>
@@ -380,11 +401,21 @@ theorem decAux_itemAux (L : Leaf N) (hL : L.Lawful) (a : Aux N) (h : AuxOk a) (h
   | shelleyMa s =>
     obtain ⟨m, ns⟩ := s
     cases ns with
-    | none => simp [ScriptsPresent] at hs
+    | none => simp [Constructed, constructedB] at hs
     | some ns =>
       simp only [itemAux, decAux, decAlonzo_itemShelleyMa, decShelleyMa_item_some L hL m ns h, canonAux]
   | alonzo a =>
     simp only [itemAux, decAux, decAlonzo_itemAlonzo L hL a h, canonAux, canonAlonzo]
+
+/-- the FULL round trip: whatever the constructors are given -/
+theorem decAux_itemAux_norm (L : Leaf N) (hL : L.Lawful) (a : Aux N) (h : AuxOk a) :
+    decAux L (itemAux L (normAux a)) = .ok (canonAux (normAux a)) :=
+  decAux_itemAux L hL (normAux a) (auxOk_normAux a h) (constructed_normAux a)
+
+/-- the one-item array `[metadata]`: the constructor fills in the empty script list -/
+theorem decShelleyMa_one_item (L : Leaf N) (m : Metadata) (h : MetaOk m) :
+    decShelleyMa L (.array [itemMetadata m]) = .ok ⟨canonSortInt m, some []⟩ := by
+  simp [decShelleyMa, listElems?, decMetadata_itemMetadata m h.1 h.2, Res.bind, normShelleyMa]
 
 theorem decAux_shelleyMa_none (L : Leaf N) (m : Metadata) (h : MetaOk m) :
     decAux L (itemAux L (.shelleyMa ⟨m, Option.none⟩)) = .crash := by
@@ -551,6 +582,18 @@ def AuxSpecOk : Aux N → Prop
   | .shelley m => specOkM m = true
   | .shelleyMa s => specOkM s.metadata = true ∧ s.native.isSome = true
   | .alonzo a => ∀ m, a.metadata = some m → specOkM m = true
+
+/-- the metadata of the object is in the CDDL ranges -/
+def AuxMdSpecOk : Aux N → Prop
+  | .shelley m => specOkM m = true
+  | .shelleyMa s => specOkM s.metadata = true
+  | .alonzo a => ∀ m, a.metadata = some m → specOkM m = true
+
+theorem auxSpecOk_normAux (a : Aux N) (h : AuxMdSpecOk a) : AuxSpecOk (normAux a) := by
+  cases a with
+  | shelley m => exact h
+  | shelleyMa s => exact ⟨h, rfl⟩
+  | alonzo b => exact h
 
 theorem auxSpecOkB_sound (a : Aux N) (h : auxSpecOkB a = true) : AuxSpecOk a := by
   cases a with
